@@ -17,6 +17,12 @@ inline thread_local unsigned long long rng = 88172645463325252ULL;
 inline unsigned long long next() { rng ^= rng << 13; rng ^= rng >> 7; rng ^= rng << 17; return rng; }
 inline void maybe_yield() { if ((next() & 7) == 0) std::this_thread::yield(); }
 constexpr long NONE = -987654321L;
+// nested parse: while the hook is set, every rule functor of the outer parse runs a complete parse on the same parser object
+inline thread_local long (*nest_fn)(const std::string&) = nullptr;
+inline thread_local const std::string* nest_in = nullptr;
+inline thread_local int nest_depth = 0;
+inline thread_local long nest_calls = 0, nest_bad = 0, nest_want = 0;
+inline void maybe_nest() { if (nest_fn && nest_depth == 0) { nest_depth = 1; ++nest_calls; if (nest_fn(*nest_in) != nest_want) ++nest_bad; nest_depth = 0; } }
 template<class T> long cval(const T& v)
 {
     if constexpr (std::is_same_v<T, ctpg::term_value<char>>) return long((unsigned char)v.get_value()) + 1000L * v.get_column() + 100000L * v.get_line();
@@ -25,9 +31,9 @@ template<class T> long cval(const T& v)
     else if constexpr (std::is_same_v<T, ctpg::no_type>) return 7;
     else return long(v);
 }
-template<int R> struct H { template<class... A> long operator()(const A&... a) const { maybe_yield(); long h = R * 1000003L + 17; ((h = (h * 31 + cval(a)) % 2147483647L), ...); return h; } };
+template<int R> struct H { template<class... A> long operator()(const A&... a) const { maybe_yield(); maybe_nest(); long h = R * 1000003L + 17; ((h = (h * 31 + cval(a)) % 2147483647L), ...); return h; } };
 struct Ctx { long k = 5; long calls = 0; };
-template<int R> struct HX { template<class C, class... A> long operator()(C& c, const A&... a) const { maybe_yield(); ++c.calls; long h = R * 1000003L + c.k; ((h = (h * 31 + cval(a)) % 2147483647L), ...); return h; } };
+template<int R> struct HX { template<class C, class... A> long operator()(C& c, const A&... a) const { maybe_yield(); maybe_nest(); ++c.calls; long h = R * 1000003L + c.k; ((h = (h * 31 + cval(a)) % 2147483647L), ...); return h; } };
 struct TTf { long operator()(std::string_view sv) const { maybe_yield(); return long(sv.size()) * 13 + (sv.size() ? (unsigned char)sv[0] : 0); } };
 struct ystream { std::string text; template<class T> ystream& operator<<(const T& v) { maybe_yield(); std::ostringstream o; o << v; text += o.str(); return *this; } };
 template<const vf::lexspec* Sp> struct QuietLexer {
@@ -121,7 +127,8 @@ int main(int argc, char** argv)
     std::vector<Case> cases;
     { std::ifstream in(argv[1]); std::string line; while (std::getline(in, line)) { std::istringstream ls(line); Case c; std::string hx; ls >> c.gi >> c.op >> hx; if (hx == "-") hx.clear(); c.in = vf::unhex(hx); cases.push_back(c); } }
     // isolated results, computed single-threaded, each from a fresh call
-    for (auto& c : cases) c.want = run_case(c);
+    for (auto& c : cases) { std::printf("I %d %d\n", c.gi, c.op); std::fflush(stdout); c.want = run_case(c); }
+    std::printf("ISOLATED-DONE\n"); std::fflush(stdout);
     for (auto& c : cases) std::printf("W %d %d %ld %llu %ld\n", c.gi, c.op, c.want.v, c.want.sh, c.want.extra);
     // history independence: the same calls in a shuffled order (after failing and recovering calls) reproduce the isolated results
     long hist_bad = 0;
@@ -153,10 +160,10 @@ int main(int argc, char** argv)
     // overlap: sweep over all intervals, count pairs from different threads that overlap, by operation kind of the later starter
     std::vector<Iv> all; for (auto& v : ivs) all.insert(all.end(), v.begin(), v.end());
     std::sort(all.begin(), all.end(), [](const Iv& a, const Iv& b) { return a.s < b.s; });
-    long long pairs[5] = { 0, 0, 0, 0, 0 }; std::vector<Iv> active;
+    long long pairs[6] = { 0, 0, 0, 0, 0, 0 }; std::vector<Iv> active;
     for (const Iv& iv : all) { size_t w = 0; for (size_t i = 0; i < active.size(); ++i) if (active[i].e > iv.s) active[w++] = active[i]; active.resize(w);
-        for (const Iv& a : active) if (a.th != iv.th) ++pairs[iv.op > 4 ? 4 : iv.op]; active.push_back(iv); }
-    std::printf("SUM calls %zu mismatches %ld hist_bad %ld image_changed %ld overlap %lld %lld %lld %lld %lld\n", all.size(), mismatches.load(), hist_bad, image_changed, pairs[0], pairs[1], pairs[2], pairs[3], pairs[4]);
+        for (const Iv& a : active) if (a.th != iv.th) ++pairs[iv.op > 5 ? 5 : iv.op]; active.push_back(iv); }
+    std::printf("SUM calls %zu mismatches %ld hist_bad %ld image_changed %ld overlap %lld %lld %lld %lld %lld %lld\n", all.size(), mismatches.load(), hist_bad, image_changed, pairs[0], pairs[1], pairs[2], pairs[3], pairs[4], pairs[5]);
     for (auto& s : firstbad) std::printf("BAD %s\n", s.c_str());
     std::printf("END\n");
     return 0;
@@ -166,7 +173,14 @@ int main(int argc, char** argv)
 def emit_tu(gs, runtime):
     o = [PRE]
     for gi, g in enumerate(gs): o.append(emit_one(g, gi, gi in runtime))
-    disp = '\n'.join('    case %d: if (c.op == 4) { auto q = g%d::make(); vt::Res r = vt::do_op<g%d::is_ctx>(q, 3, c.in); vt::Res r2 = vt::do_op<g%d::is_ctx>(q, 0, c.in); r.extra = r2.v; return r; } return vt::do_op<g%d::is_ctx>(g%d::get(), c.op, c.in);' % (gi, gi, gi, gi, gi, gi) for gi in range(len(gs)))
+    nest = ('if (c.op == 5) { vt::Res iso = vt::do_op<g%d::is_ctx>(g%d::get(), 0, c.in); vt::nest_in = &c.in; vt::nest_want = iso.v; vt::nest_calls = 0; vt::nest_bad = 0; '
+            'vt::nest_fn = [](const std::string& s) { return vt::do_op<g%d::is_ctx>(g%d::get(), 0, s).v; }; vt::Res r = vt::do_op<g%d::is_ctx>(g%d::get(), 0, c.in); vt::nest_fn = nullptr; '
+            'if (!(r == iso)) r.extra = -777777; else if (vt::nest_bad) r.extra = -777778; else r.extra = vt::nest_calls; return r; } ')
+    def case(gi):
+        old = ('if (c.op == 4) { auto q = g%d::make(); vt::Res r = vt::do_op<g%d::is_ctx>(q, 3, c.in); vt::Res r2 = vt::do_op<g%d::is_ctx>(q, 0, c.in); r.extra = r2.v; return r; } '
+               'return vt::do_op<g%d::is_ctx>(g%d::get(), c.op, c.in);') % ((gi,) * 5)
+        return '    case %d: ' % gi + nest % ((gi,) * 6) + old
+    disp = '\n'.join(case(gi) for gi in range(len(gs)))
     imgs = '\n'.join('    case %d: return ctpg::verif::access::image(g%d::get());' % (gi, gi) for gi in range(len(gs)))
     o.append(MAIN.replace('%(dispatch)s', disp).replace('%(images)s', imgs).replace('%(ng)d', str(len(gs))))
     return '\n'.join(o)
@@ -219,6 +233,8 @@ def _worker(spec):
     for gi, g in enumerate(gs):
         for d in inputs_for(g, rnd, spec['n_inputs']):
             for op in (0, 1, 2): lines.append('%d %d %s' % (gi, op, eg.hexin(d)))
+        for d in inputs_for(g, rnd, 3)[:3]:
+            if len(d) <= 400: lines.append('%d 5 %s' % (gi, eg.hexin(d)))     # nested: every functor of the outer parse parses the same text on the same object
         lines.append('%d 3 -' % gi)
         for d in inputs_for(g, rnd, 2)[:2]: lines.append('%d 4 %s' % (gi, eg.hexin(d)))     # construct a fresh parser in the calling thread, diagnose and parse with it
     d = os.path.join(common.WORK, 'jobs'); os.makedirs(d, exist_ok=True)
@@ -228,23 +244,34 @@ def _worker(spec):
         with os.fdopen(fd, 'w') as f: f.write('\n'.join(lines) + '\n')
         for nthreads in spec['threads']:
             env = {'TSAN_OPTIONS': 'halt_on_error=0:report_signal_unsafe=0:log_path=%s/tsan:second_deadlock_stack=1' % logdir}
-            rc, so, se, to = common.run(exe, [path, str(nthreads), str(spec['iters']), str(spec['seed'] + nthreads)], timeout=1200, env=env, big_stack=False)
+            rc, so, se, to = common.run(exe, [path, str(nthreads), str(spec['iters']), str(spec['seed'] + nthreads)], timeout=spec.get('timeout', 300), env=env, big_stack=False)
             text = so.decode('latin-1')
             reports = []
             for f in glob.glob(logdir + '/tsan*'):
                 reports += re.findall(r'WARNING: ThreadSanitizer: [^\n]*\n(?:.*\n){0,12}', open(f, errors='replace').read())
                 os.unlink(f)
             C['thread_runs'] += 1
-            m = re.search(r'SUM calls (\d+) mismatches (\d+) hist_bad (\d+) image_changed (\d+) overlap (\d+) (\d+) (\d+) (\d+) (\d+)', text)
+            m = re.search(r'SUM calls (\d+) mismatches (\d+) hist_bad (\d+) image_changed (\d+) overlap (\d+) (\d+) (\d+) (\d+) (\d+) (\d+)', text)
             if to or 'END' not in text or not m:
+                if 'ISOLATED-DONE' not in text:
+                    last = [l for l in text.split('\n') if l.startswith('I ')][-1:]
+                    opn = {'0': 'parse', '1': 'verbose parse', '2': 'parse without stream', '3': 'write_diag_str', '4': 'run-time construction', '5': 'nested parse (functors parse on the same object)'}
+                    what = 'single-threaded %s of grammar #%s' % (opn.get(last[0].split()[2], '?'), last[0].split()[1]) if last else 'start-up'
+                    out['viol'].append((['site:single-thread@crash'], 'before any thread was started: %s %s rc=%s: %s' % (what, 'did not terminate' if to else 'aborted', rc, se.decode('latin-1', 'replace')[-300:]), {'grammars': [g.to_json() for g in gs]}))
+                    continue
                 out['viol'].append((['site:threads@crash'], '%d threads on shared parsers: run %s rc=%s: %s' % (nthreads, 'timed out' if to else 'aborted', rc, (se.decode('latin-1', 'replace') or text)[-400:]), {'grammars': [g.to_json() for g in gs]}))
                 continue
-            calls, mism, hist, img = (int(m.group(i)) for i in range(1, 5)); ov = [int(m.group(i)) for i in range(5, 10)]
+            calls, mism, hist, img = (int(m.group(i)) for i in range(1, 5)); ov = [int(m.group(i)) for i in range(5, 11)]
             C['evaluations'] += calls; C['concurrent_calls'] += calls
-            C['overlapping_call_pairs_parse'] += ov[0]; C['overlapping_call_pairs_verbose_parse'] += ov[1]; C['overlapping_call_pairs_parse_nostream'] += ov[2]; C['overlapping_call_pairs_write_diag_str'] += ov[3]; C['overlapping_call_pairs_run_time_construction'] += ov[4]
+            C['overlapping_call_pairs_parse'] += ov[0]; C['overlapping_call_pairs_verbose_parse'] += ov[1]; C['overlapping_call_pairs_parse_nostream'] += ov[2]; C['overlapping_call_pairs_write_diag_str'] += ov[3]; C['overlapping_call_pairs_run_time_construction'] += ov[4]; C['overlapping_call_pairs_nested_parse'] += ov[5]
             C['race_report_blocks'] += len(reports)
             C['parser_objects_imaged'] += len(gs)
             for gi_, g in enumerate(gs): out['distinct'].append(common.sha(g.key(), str(nthreads))[:12])
+            nested = [l.split() for l in text.split('\n') if l.startswith('W ') and l.split()[2] == '5']
+            C['nested_parse_cases'] += len(nested); C['nested_parses_inside_functors'] += sum(max(0, int(w[5])) for w in nested)
+            nb = [w for w in nested if int(w[5]) in (-777777, -777778)]
+            if nb: out['viol'].append((['site:nested@result'], 'a parse whose functors parse on the same parser object (single thread) %s: %d case(s), first grammar #%s' % (
+                'returns something else than in isolation' if int(nb[0][5]) == -777777 else 'disturbs the nested parses', len(nb), nb[0][1]), {'grammars': [g.to_json() for g in gs]}))
             bad = [l for l in text.split('\n') if l.startswith('BAD ') or l.startswith('HB ') or l.startswith('IMG ')]
             if mism: out['viol'].append((['site:threads@result'], '%d threads: %d of %d concurrent calls returned something else than in isolation: %s' % (nthreads, mism, calls, bad[:2]), {'grammars': [g.to_json() for g in gs], 'bad': bad}))
             if hist: out['viol'].append((['site:history@result'], 'single-threaded shuffled history: %d calls differ from their isolated results: %s' % (hist, bad[:2]), {'grammars': [g.to_json() for g in gs], 'bad': bad}))
